@@ -187,6 +187,10 @@ def run(ctx):
                "completes inline (inline_scheduler) and exposes an inplace_stop_token")
     rep.assume("'awaited' in 'a result already available when the future is awaited is delivered' is read as 'connected': "
                "the monitor demands the result only if the operation's completion returned before connect began")
+    hdr = os.path.join(ctx.repo, "include", "unifex", "spawn_future.hpp")
+    if 'UNIFEX_VERIF_SPIN("future.drop_spin")' not in open(hdr).read():
+        raise vlib.Broken("engines/future/hooks.patch is not applied to %s (the bare spin loop in drop() cannot be scheduled "
+                          "without its schedule point)" % ctx.repo)
     mc = mc_scenarios()
     scns = real_scenarios(mc, ctx.tier)
     mcp = os.path.join(ctx.work, "mc_scenarios.json")
@@ -254,8 +258,8 @@ def run(ctx):
     # ---- 4. real code
     exe = vlib.build(ctx, "future_driver", ["engines/future/driver.cpp"], lib=LIB, extra=["-fsanitize-recover=address"])
     byid = {s["id"]: s for s in scns}
-    cap_d, cap_r = (36, 6) if ctx.quick else (4000, 300)
-    if os.environ.get("VERIF_FUTURE_SELFTEST"):       # reduced volume for the mutation self-test (run_selftest.py)
+    cap_d, cap_r = (36, 6) if ctx.quick else (600, 100)
+    if os.environ.get("VERIF_FUTURE_SELFTEST"):       # reduced volume for the mutation self-test (future_selftest.py)
         cap_d, cap_r = 24, 4
     runs = [("guided", ["--mode", "guided", "--scenarios", sp, "--behaviours", bp], nb),
             ("dfs", ["--mode", "dfs", "--scenarios", sp, "--bound", 2 if ctx.quick else 3, "--cap", cap_d], len(scns) * cap_d),
